@@ -44,7 +44,7 @@ FAULT_KINDS = ["request-off-block-boundary", "fill-after-complete-block", "reque
                "split-block-not-dividing", "double-request"]
 EXPECTED_PROBES = ["push-buffer_output-overflow", "push-buffer_input-overflow", "remainder-yielded",
                    "split-B-coprime-to-n", "split-B-multiple-of-n", "fillrequestseq-push", "reset-on",
-                   "watchdog-lines-max"]
+                   "watchdog-guarded-calls"]
 
 BUDGET = 200000
 
@@ -236,7 +236,7 @@ def guarded(res, what, fn):
     try:
         with StepBudget(BUDGET) as sb:
             v = fn()
-        res.probe("watchdog-lines-max", 0)
+        res.probe("watchdog-guarded-calls")
         if sb.used > res.probes.get("_maxlines", 0):
             res.probes["_maxlines"] = sb.used
         return v, False
